@@ -5026,7 +5026,7 @@ class Entity(object, metaclass=EntityMeta):
             obj._dbvals_[attr] = new_dbval
 
         obj._vals_.update(new_vals)
-    def _delete_(obj, undo_funcs=None):
+    def _delete_(obj, undo_funcs=None, deleted_by=None):
         status = obj._status_
         if status in del_statuses: return
         is_recursive_call = undo_funcs is not None
@@ -5036,6 +5036,7 @@ class Entity(object, metaclass=EntityMeta):
         with cache.flush_disabled():
             get_val = obj._vals_.get
             undo_list = []
+            delete_afterwards = []
             objects_to_save = cache.objects_to_save
             save_pos = obj._save_pos_
 
@@ -5076,7 +5077,11 @@ class Entity(object, metaclass=EntityMeta):
                         if not reverse.is_collection:
                             val = get_val(attr) if attr in obj._vals_ else attr.load(obj)
                             if val is None: continue
-                            if attr.cascade_delete: val._delete_(undo_funcs)
+                            if val is deleted_by and val._status_ in del_statuses: continue
+                            if attr.cascade_delete:
+                                # the row of this object refers to the partner: it has to be deleted first
+                                if attr.columns: delete_afterwards.append(val)
+                                else: val._delete_(undo_funcs)
                             elif not reverse.is_required:
                                 # unlink the partner only if it still points to this object (it does not when
                                 # this delete is the cascade of 'partner.attr = another_object')
@@ -5137,6 +5142,7 @@ class Entity(object, metaclass=EntityMeta):
                     objects_to_save.append(obj)
                     obj._status_ = 'marked_to_delete'
                     cache.modified = True
+                for val in delete_afterwards: val._delete_(undo_funcs, obj)
             except:
                 if not is_recursive_call:
                     for undo_func in reversed(undo_funcs): undo_func()
